@@ -203,8 +203,25 @@ func (x *Exec) materialize(st *State, v Val, t types.Type) Term {
 			fn := "elemptr$" + x.S.typeTag(a.RootT)
 			x.declUF(fn, fmt.Sprintf("(Int %s) Int", x.S.Idx()))
 			r := Term{app(fn, a.Ref, a.Idx), "Int"}
-			x.assumed["escaping element address "+fn+": reads through the escaped pointer are unconstrained, writes through it are not tracked"] = true
 			x.assume(Term{app(">", r, intLit(0)), "Bool"})
+			if su, ok := asStruct(a.RootT); ok && !x.discover {
+				// &s[i] of a struct element: what the pointer points at is the element as it is
+				// now (a snapshot: a later write to s[i] through the slice is not seen through
+				// the pointer, and a write through the pointer is not seen in s[i])
+				x.assumed["escaping element address "+fn+": the pointer's target is a snapshot of the element at the time the address was taken (later writes on either side are not propagated to the other)"] = true
+				ss := x.S.SortOf(a.RootT)
+				elem := x.loadAddr(st, a)
+				for i := 0; i < su.NumFields(); i++ {
+					hn, hs := x.S.FieldHeap(ss, su, i)
+					if h, ok := st.Heaps[hn]; ok {
+						_ = hs
+						fs := x.S.SortOf(su.Field(i).Type())
+						x.assumeUnder(st.Guard, mkEq(mkSelect(h, r, fs), Term{app(x.S.FieldSel(ss, su, i), elem), fs}))
+					}
+				}
+				return r
+			}
+			x.assumed["escaping element address "+fn+": reads through the escaped pointer are unconstrained, writes through it are not tracked"] = true
 			return r
 		}
 		panic(toolErr("interior address escapes (stored/returned/passed): " + t.String()))
